@@ -190,6 +190,16 @@ func (a *WALBatchApplier) ApplyEntries(entries []*replication_proto.WALEntry, ap
 	// Process entries in order
 	var lastAppliedSeq uint64
 	for i, protoEntry := range entries {
+		// A new sequence number completes the previous one. Record the
+		// progress right away: if an entry further down the message fails
+		// (or a gap shows), the replica must not ask again for what it has
+		// applied already - applying an old entry once more over newer ones
+		// would take its key back in time.
+		if i > 0 && protoEntry.SequenceNumber != entries[i-1].SequenceNumber {
+			a.maxAppliedSeq = lastAppliedSeq
+			a.expectedNextSeq = lastAppliedSeq + 1
+		}
+
 		// Verify entries are in sequence
 		// (the entries of one batch or transaction share a sequence number)
 		if i > 0 && protoEntry.SequenceNumber != entries[i-1].SequenceNumber+1 &&
